@@ -7,9 +7,26 @@
   and `Enc.WF` is established for the four *generated* shipped encodings by
   kernel evaluation at the end (so the float-computed length tables of the
   running code are checked against exact integer arithmetic on every run).
+
+  §6–§8 (streaming forms agree with the one-shot forms; proofs in
+  Saltpack/Proofs/BasexBlocks.lean, StackBasex.lean, StreamLemmas.lean):
+  §6 strict decoding of alphabet characters is compositional at every multiple
+  of the character block length (`C10_decoder_append`, `C10_decoder_blocks`,
+  failure case `C10_decoder_blocks_error`), and `Basex.decodePrefix` — the
+  workhorse of the decoder stream (Model/Stream.lean) and of the classifier —
+  is `Basex.decode` (`C10_decodePrefix_is_decode`, `C10_decodePrefix_ok_iff`,
+  and on failure the good blocks before the first bad one plus that block's
+  error, `C10_decodePrefix_error`); §7 the encoder stream
+  (`EncState.write`/`close`) writes `Basex.encode` of the concatenated input
+  for every write split (`C10_encoder_stream_is_encode`); §8 the length helpers
+  are additive over whole blocks (`C10_len_helpers_multiblock`), are inverse to
+  each other (`C10_decLen_encLen`), and give the lengths of `encode` and of a
+  strict `decode` for any number of blocks.
 -/
 import Saltpack.Proofs.BasexWF
 import Saltpack.Proofs.Basex
+import Saltpack.Proofs.BasexBlocks
+import Saltpack.Proofs.StreamLemmas
 import Saltpack.Gen.BasexTables
 
 namespace Saltpack.Props.C10
@@ -104,6 +121,136 @@ theorem C10_strict_twins :
     Gen.base62Std.strict = Gen.base62StdStrict ∧ Gen.base58Std.strict = Gen.base58StdStrict := by
   decide
 
+/-! ## 6. Strict decoding is block-wise: any split at multiples of the character
+       block length; `decodePrefix` is `decode`
+
+  All statements are about strings of alphabet characters (the decoder stream
+  sits behind the filtering reader, which lets nothing else through) and about
+  the strict twin `e.strict`, which is what `decodePrefix` calls; for an
+  encoding without skip characters `e.strict = e` (`C10_strict_eq_self`), the
+  `_noskip` corollaries spell that out.  Only `0 < e.charBlockLen` is needed
+  (`Enc.WF.cblock_pos`). -/
+
+/-- an encoding without skip characters is its own strict twin -/
+theorem C10_strict_eq_self (e : Enc) (hs : e.skip = []) : e.strict = e :=
+  Proofs.strict_eq_self e hs
+
+/-- **Two pieces.**  If the first piece is a whole number of character blocks,
+    decoding the concatenation is decoding both pieces and concatenating: it
+    succeeds iff both do. -/
+theorem C10_decoder_append (e : Enc) (hN : 0 < e.charBlockLen) (a b : List UInt8)
+    (hd : ∀ c ∈ a ++ b, (e.digit? c).isSome) (ha : e.charBlockLen ∣ a.length) :
+    (decode e.strict (a ++ b)).toOption =
+      (decode e.strict a).toOption.bind (fun x => (decode e.strict b).toOption.map (fun y => x ++ y)) :=
+  Proofs.decode_strict_append_dvd e hN a b hd ha
+
+/-- **Any number of pieces.**  Split a string of alphabet characters anywhere at
+    multiples of the character block length (every piece but the last a whole
+    number of blocks — zero blocks allowed —, the last piece arbitrary): the
+    one-shot decoding is the concatenation of the decodings of the pieces, and
+    fails (`none`) iff the decoding of some piece fails. -/
+theorem C10_decoder_blocks (e : Enc) (hN : 0 < e.charBlockLen) (blocks : List (List UInt8))
+    (hd : ∀ c ∈ blocks.flatten, (e.digit? c).isSome)
+    (hb : ∀ b ∈ blocks.dropLast, e.charBlockLen ∣ b.length) :
+    (decode e.strict blocks.flatten).toOption =
+      (blocks.mapM (fun b => (decode e.strict b).toOption)).map List.flatten :=
+  Proofs.decode_strict_blocks e hN blocks hd hb
+
+/-- the failure case of `C10_decoder_blocks` on its own -/
+theorem C10_decoder_blocks_error (e : Enc) (hN : 0 < e.charBlockLen) (blocks : List (List UInt8))
+    (hd : ∀ c ∈ blocks.flatten, (e.digit? c).isSome)
+    (hb : ∀ b ∈ blocks.dropLast, e.charBlockLen ∣ b.length) :
+    (∃ x, decode e.strict blocks.flatten = .error x) ↔ ∃ b ∈ blocks, ∃ x, decode e.strict b = .error x :=
+  Proofs.decode_strict_blocks_error e hN blocks hd hb
+
+theorem C10_decoder_blocks_noskip (e : Enc) (hN : 0 < e.charBlockLen) (hs : e.skip = [])
+    (blocks : List (List UInt8))
+    (hd : ∀ c ∈ blocks.flatten, (e.digit? c).isSome)
+    (hb : ∀ b ∈ blocks.dropLast, e.charBlockLen ∣ b.length) :
+    (decode e blocks.flatten).toOption = (blocks.mapM (fun b => (decode e b).toOption)).map List.flatten := by
+  have h := C10_decoder_blocks e hN blocks hd hb
+  rw [C10_strict_eq_self e hs] at h
+  exact h
+
+/-- **`decodePrefix` is `decode`** on alphabet strings (with enough fuel; the
+    model calls it with `s.length + 1`): the whole decoding and no error when
+    `decode` succeeds, an error when it fails. -/
+theorem C10_decodePrefix_is_decode (e : Enc) (hN : 0 < e.charBlockLen) (s : List UInt8)
+    (hd : ∀ c ∈ s, (e.digit? c).isSome) (fuel : Nat) (hf : s.length < fuel) :
+    (∀ y, decode e.strict s = .ok y → decodePrefix e fuel s = (y, none)) ∧
+    ((∃ x, decode e.strict s = .error x) → ∃ pre x, decodePrefix e fuel s = (pre, some x)) :=
+  Proofs.decodePrefix_is_decode e hN s hd fuel hf
+
+/-- …and conversely: `decodePrefix` reports no error exactly when `decode`
+    succeeds, with the same bytes -/
+theorem C10_decodePrefix_ok_iff (e : Enc) (hN : 0 < e.charBlockLen) (s : List UInt8)
+    (hd : ∀ c ∈ s, (e.digit? c).isSome) (fuel : Nat) (hf : s.length < fuel) (y : Bytes) :
+    decodePrefix e fuel s = (y, none) ↔ decode e.strict s = .ok y :=
+  Proofs.decodePrefix_ok_iff e hN s hd fuel hf y
+
+/-- the failure case in full: the bytes that come with the error are the
+    decoding of the `k` whole blocks before the first failing block, and the
+    error is that block's -/
+theorem C10_decodePrefix_error (e : Enc) (hN : 0 < e.charBlockLen) (s : List UInt8)
+    (hd : ∀ c ∈ s, (e.digit? c).isSome) (fuel : Nat) (hf : s.length < fuel) (pre : Bytes) (x : Basex.Err)
+    (h : decodePrefix e fuel s = (pre, some x)) :
+    ∃ k, k * e.charBlockLen < s.length ∧
+      decode e.strict (s.take (k * e.charBlockLen)) = .ok pre ∧
+      decode e.strict ((s.drop (k * e.charBlockLen)).take e.charBlockLen) = .error x :=
+  Proofs.decodePrefix_error e hN fuel s hd hf pre x h
+
+theorem C10_decodePrefix_is_decode_noskip (e : Enc) (hN : 0 < e.charBlockLen) (hs : e.skip = [])
+    (s : List UInt8) (hd : ∀ c ∈ s, (e.digit? c).isSome) (fuel : Nat) (hf : s.length < fuel) :
+    (∀ y, decode e s = .ok y → decodePrefix e fuel s = (y, none)) ∧
+    ((∃ x, decode e s = .error x) → ∃ pre x, decodePrefix e fuel s = (pre, some x)) := by
+  have h := C10_decodePrefix_is_decode e hN s hd fuel hf
+  rw [C10_strict_eq_self e hs] at h
+  exact h
+
+/-! ## 7. The encoder stream is the one-shot encoder -/
+
+/-- **BaseX encoder stream = one-shot encoding**: however the input is split
+    over `Write` calls (empty writes included), after `Close` (which reports
+    success) the concatenation of what reached the underlying writer is
+    `encode` of the concatenated input.  (Same statement as
+    `C13_basex_encoder_independent`.) -/
+theorem C10_encoder_stream_is_encode (enc : Basex.Enc) (he : enc.WF) (ws : List Bytes) :
+    let s1 := ws.foldl (fun (s : Stream.EncState) w => (s.write w).2.2) ({ enc := enc } : Stream.EncState)
+    let r := s1.close
+    r.1 = true ∧ r.2.written.flatten = Basex.encode enc ws.flatten :=
+  Proofs.encStream_any_split enc he ws
+
+/-! ## 8. The length helpers over several blocks -/
+
+/-- `EncodedLen` / `DecodedLen` are additive over whole blocks: `q` byte blocks
+    are `q` character blocks, plus the helper's answer on what is left (for
+    `r ≤ blockLen` resp. `r ≤ charBlockLen` that answer is the exact one of
+    `C10_len_helpers_exact`; the statement holds for every `r`). -/
+theorem C10_len_helpers_multiblock (e : Enc) (he : e.WF) (q r : Nat) :
+    e.encLen (q * e.blockLen + r) = q * e.charBlockLen + e.encLen r ∧
+    e.decLen (q * e.charBlockLen + r) = q * e.blockLen + e.decLen r :=
+  ⟨Proofs.encLen_add_blocks e he.block_pos q r, Proofs.decLen_add_blocks e he.cblock_pos q r⟩
+
+/-- whole blocks go to whole blocks -/
+theorem C10_len_helpers_whole_blocks (e : Enc) (he : e.WF) (q : Nat) :
+    e.encLen (q * e.blockLen) = q * e.charBlockLen ∧ e.decLen (q * e.charBlockLen) = q * e.blockLen :=
+  ⟨Proofs.encLen_blocks he q, Proofs.decLen_blocks he q⟩
+
+/-- `DecodedLen (EncodedLen n) = n`, any number of blocks -/
+theorem C10_decLen_encLen (e : Enc) (he : e.WF) (n : Nat) : e.decLen (e.encLen n) = n :=
+  Proofs.decLen_encLen_all he n
+
+/-- the encoder's output length, by blocks -/
+theorem C10_encode_length_multiblock (e : Enc) (he : e.WF) (bs : Bytes) (q r : Nat)
+    (h : bs.length = q * e.blockLen + r) :
+    (encode e bs).length = q * e.charBlockLen + e.encLen r := by
+  rw [C10_encode_length e he, h, (C10_len_helpers_multiblock e he q r).1]
+
+/-- the strict decoder's output length is `DecodedLen` of the input length -/
+theorem C10_decode_length (e : Enc) (he : e.WF) (hs : e.skip = []) (s : List UInt8) (bs : Bytes)
+    (h : decode e s = .ok bs) : bs.length = e.decLen s.length :=
+  Proofs.decode_length e he hs s bs h
+
 /-! ## non-vacuity -/
 
 example : decode Gen.base62StdStrict (encode Gen.base62StdStrict [0, 255, 7]) = .ok [0, 255, 7] := by decide
@@ -113,5 +260,53 @@ example : decode Gen.base62StdStrict [52, 56] = .error .badLen := by decide
 example : decode Gen.base62StdStrict [48, 49] = .ok [1] := by decide
 /-- a one-character block is never valid -/
 example : decode Gen.base62StdStrict [48] = .error .badLen := by decide
+
+/-! ### §6–§8 -/
+
+/-- one full block of `'0'` then the two-character block `"01"`: piecewise and
+    one-shot -/
+example :
+    decode Gen.base62StdStrict (List.replicate 43 48 ++ [48, 49]) = .ok (List.replicate 32 0 ++ [1]) ∧
+    decode Gen.base62StdStrict (List.replicate 43 48) = .ok (List.replicate 32 0) ∧
+    decode Gen.base62StdStrict [48, 49] = .ok [1] := by decide
+/-- the hypotheses of `C10_decoder_blocks` are satisfiable (three pieces: one
+    block, no block, a final short block), and so is its failure case -/
+example :
+    (decode Gen.base62StdStrict.strict [List.replicate 43 48, [], [48, 49]].flatten).toOption =
+      ([List.replicate 43 48, [], [48, 49]].mapM
+        (fun b => (decode Gen.base62StdStrict.strict b).toOption)).map List.flatten :=
+  C10_decoder_blocks Gen.base62StdStrict (by decide) _ (by decide) (by decide)
+example : ∃ b ∈ [List.replicate 43 48, [52, 56]], ∃ x, decode Gen.base62StdStrict.strict b = .error x :=
+  (C10_decoder_blocks_error Gen.base62StdStrict (by decide) [List.replicate 43 48, [52, 56]]
+    (by decide) (by decide)).mp ⟨.badLen, by decide⟩
+/-- the block-boundary hypothesis is needed: `"01"` decodes, its pieces `"0"`, `"1"` do not -/
+example : decode Gen.base62StdStrict ([48] ++ [49]) = .ok [1] ∧
+    decode Gen.base62StdStrict [48] = .error .badLen ∧ decode Gen.base62StdStrict [49] = .error .badLen := by
+  decide
+/-- `decodePrefix`: success, and failure in the second block (first block's
+    bytes, second block's error) -/
+example : decodePrefix Gen.base62StdStrict 46 (List.replicate 43 48 ++ [48, 49]) =
+    (List.replicate 32 0 ++ [1], none) := by decide
+example : decodePrefix Gen.base62StdStrict 46 (List.replicate 43 48 ++ [52, 56]) =
+    (List.replicate 32 0, some .badLen) := by decide
+example : ∃ k, k * Gen.base62StdStrict.charBlockLen < (List.replicate 43 48 ++ [52, 56] : List UInt8).length ∧
+    decode Gen.base62StdStrict.strict ((List.replicate 43 48 ++ [52, 56] : List UInt8).take
+      (k * Gen.base62StdStrict.charBlockLen)) = .ok (List.replicate 32 0) ∧
+    decode Gen.base62StdStrict.strict (((List.replicate 43 48 ++ [52, 56] : List UInt8).drop
+      (k * Gen.base62StdStrict.charBlockLen)).take Gen.base62StdStrict.charBlockLen) = .error .badLen :=
+  C10_decodePrefix_error Gen.base62StdStrict (by decide) (List.replicate 43 48 ++ [52, 56]) (by decide)
+    46 (by decide) (List.replicate 32 0) .badLen (by decide)
+/-- the encoder stream over a block boundary (31 + 3 bytes, an empty write in between) -/
+example :
+    let ws : List Bytes := [List.replicate 31 7, [], [1, 2, 3]]
+    let s1 := ws.foldl (fun (s : Stream.EncState) w => (s.write w).2.2)
+      ({ enc := Gen.base62StdStrict } : Stream.EncState)
+    s1.close.1 = true ∧ s1.close.2.written.length = 2 ∧
+    s1.close.2.written.flatten = encode Gen.base62StdStrict (List.replicate 31 7 ++ [1, 2, 3]) := by decide
+/-- lengths: 67 = 2·32 + 3 bytes ↦ 2·43 + 5 characters and back; 35 bytes ↦ 43 + 5 characters -/
+example : Gen.base62StdStrict.encLen 67 = 2 * 43 + 5 ∧ Gen.base62StdStrict.decLen 91 = 2 * 32 + 3 ∧
+    Gen.base62StdStrict.encLen 3 = 5 ∧ Gen.base62StdStrict.decLen 5 = 3 := by decide
+example : (encode Gen.base62StdStrict (List.replicate 35 0)).length = 1 * 43 + 5 := by decide
+example : Gen.base62StdStrict.strict = Gen.base62StdStrict := by decide
 
 end Saltpack.Props.C10
